@@ -125,6 +125,87 @@ PUNCT_CPP = (PUNCT_C.replace("struct s *p, struct s v,", "s *p, s v,")
              "template <typename... A> int k(A... a) { return sizeof...(a); }\nauto l = [](auto&&... x) -> int { return 0; };\n")
 
 
+POS_TOKENS = """class Derived // the derived class
+   : public Base
+   , public Other // second base
+   , private Third
+{
+public:
+   Derived(int a) // constructor
+      : Base(a)
+      , m(1) // member
+      , n(2)
+   {
+   }
+   Derived(long b) :
+      Base(b), // trailing
+      m(3)
+   {
+   }
+};
+class D
+#ifdef X
+#endif
+   : public B
+#ifdef Y
+   , public C
+#endif
+{
+};
+struct E : // colon at the end
+   public F,
+   public G // last
+{
+};
+int f(int a, int b, int c)
+{
+   int x = a // first
+           + b
+           - c; // done
+   int y = a + // plus at the end
+           b *
+           c;
+   bool t = a == b // eq
+            && b != c
+            || c < a; // rel
+   bool u = a <= b && // and at the end
+            b >= c ||
+            c > a;
+   int z = a ? // question at the end
+           b :
+           c;
+   int w = a // cond
+           ? b // then
+           : c;
+   x = // assign at the end
+       y;
+   x // lhs
+      = y;
+   x = a << // shift
+       b
+       >> c;
+#ifdef X
+   x = a
+#else
+   x = b
+#endif
+       + c;
+   return x;
+}
+enum K
+{
+   K1 // one
+   , K2
+   , K3 // three
+};
+enum L
+{
+   L1, // one
+   L2,
+   L3
+};
+"""
+
 BRACE_DIRECTIVE = """int f(int x) { // entry
 #ifdef TRACE
     t(x);
@@ -213,6 +294,15 @@ def make_cases(r, tier):
         cfg = "".join("%s=%s\n" % (o, v) for o in brace_opts)
         for lang in ("C", "CPP"):
             cases.append(lx.LCase("brace-comment-directive:%s:%s" % (lang, v), lang, cfg, BRACE_DIRECTIVE.encode()))
+    # tokens that the pos_* options move across a line break (class/constructor colons and commas, arithmetic, boolean, comparison, conditional,
+    # assignment, shift operators, enum commas), each once at the start and once at the end of a line, with a // comment or a directive on the
+    # neighbouring line: every pos_ option at every value, singly and all together, in every tier (round-4 seed: the SafeToDeleteNl() test of the
+    # TRAIL branch of newlines_class_colon_pos() asked the colon instead of the newline; only one of two random seeds had drawn the shape)
+    pos_opts = [o["name"] for o in lx.registry() if o["name"].startswith("pos_") and o["type"] == "token_pos_e"]
+    for v in lx.TOKPOS:
+        cases.append(lx.LCase("pos-tokens:all=%s" % v, "CPP", "".join("%s=%s\n" % (o, v) for o in pos_opts), POS_TOKENS.encode()))
+        for o in pos_opts:
+            cases.append(lx.LCase("pos-tokens:%s=%s" % (o, v), "CPP", "%s=%s\n" % (o, v), POS_TOKENS.encode()))
     others = lx.corpus_cases(r, no, langs=("CS", "D", "JAVA", "PAWN", "VALA", "ECMA"))
     for i, c in enumerate(others):
         c.cfg_text, tag = cfg_for(i)
